@@ -923,7 +923,7 @@ func concurrent(out *hx.Out, seed uint64, n int) {
 				} else {
 					last, idle = f, 0
 				}
-				if idle >= 8 { // no request finished for 2 s
+				if idle >= 6 { // no request finished for 1.5 s
 					locked = true
 					break wait
 				}
